@@ -140,9 +140,21 @@ type methodScope struct {
 	kind      scopeKind
 }
 
-func (c *Checker) deepCopyMethodScopes(oldEnv, newEnv *types.GlobalEnvironment) []methodScope {
+func (c *Checker) deepCopyMethodScopes(oldEnv, newEnv *types.GlobalEnvironment, newConstantScopes []constantScope) []methodScope {
 	var newMethodScopes []methodScope
 	for _, methodScope := range c.methodScopes {
+		if methodScope.kind == scopeUsingBufferKind {
+			// a using buffer is shared by a constant scope and a method scope,
+			// its copy has to stay shared
+			i := slices.IndexFunc(c.constantScopes, func(s constantScope) bool {
+				return s.kind == scopeUsingBufferKind && s.container == methodScope.container
+			})
+			if i != -1 {
+				methodScope.container = newConstantScopes[i].container
+				newMethodScopes = append(newMethodScopes, methodScope)
+				continue
+			}
+		}
 		methodScope.container = types.DeepCopyEnv(methodScope.container, oldEnv, newEnv).(types.Namespace)
 		newMethodScopes = append(newMethodScopes, methodScope)
 	}
